@@ -110,6 +110,9 @@ func (c *Client) handleSearch() error {
 		if !c.dec.ExpectNumber(&num) {
 			return c.dec.Err()
 		}
+		if num == 0 {
+			return fmt.Errorf("in search response: message numbers must be non-zero")
+		}
 		if cmd != nil {
 			switch all := cmd.data.All.(type) {
 			case imap.SeqSet:
